@@ -620,13 +620,48 @@ def _get_word_value(word) -> str:
 
 
 def _strip_quotes(value: str) -> str:
-    """Strip surrounding quotes from a value."""
-    if len(value) >= 2:
-        if (value[0] == '"' and value[-1] == '"') or (
-            value[0] == "'" and value[-1] == "'"
-        ):
-            return value[1:-1]
-    return value
+    """Remove quoting from a word the way bash does (quote removal).
+
+    Handles literal text, '...' segments, "..." segments (with the backslash
+    escapes bash honours inside them) and backslash-escaped characters, in any
+    concatenation.  Words using $'...' / $"..." or an unterminated quote are
+    returned unchanged.
+    """
+    if "'" not in value and '"' not in value and "\\" not in value:
+        return value
+    if "$'" in value or '$"' in value:
+        return value
+    out = []
+    i, n = 0, len(value)
+    while i < n:
+        c = value[i]
+        if c == "'":
+            j = value.find("'", i + 1)
+            if j < 0:
+                return value
+            out.append(value[i + 1 : j])
+            i = j + 1
+        elif c == '"':
+            i += 1
+            while i < n and value[i] != '"':
+                if value[i] == "\\" and i + 1 < n and value[i + 1] in '$`"\\\n':
+                    i += 1
+                    if value[i] == "\n":
+                        i += 1
+                        continue
+                out.append(value[i])
+                i += 1
+            if i >= n:
+                return value
+            i += 1
+        elif c == "\\" and i + 1 < n:
+            if value[i + 1] != "\n":
+                out.append(value[i + 1])
+            i += 2
+        else:
+            out.append(c)
+            i += 1
+    return "".join(out)
 
 
 def _analyze_cond_node(
